@@ -614,10 +614,20 @@ func TestC11_HugeTotal(t *testing.T) {
 				qs = append(qs, 1, math.Nextafter(1, 0), 0)
 			}
 		}
-		for _, q := range qs {
+		batch, berr := s.GetValuesAtQuantiles(qs)
+		if berr != nil || len(batch) != len(qs) {
+			t.Fatalf("C11 huge %s (W=%v): GetValuesAtQuantiles: %v (%d answers for %d quantiles)", c, W, berr, len(batch), len(qs))
+		}
+		for qi, q := range qs {
 			y, err := s.GetValueAtQuantile(q)
 			if err != nil || math.IsNaN(y) {
 				t.Fatalf("C11 huge %s (W=%v): quantile %v: %v, %v", c, W, q, y, err)
+			}
+			if !dust && batch[qi] != y {
+				t.Fatalf("C11 huge %s (W=%v): quantile %v: the batch query answers %v, the single query %v", c, W, q, batch[qi], y)
+			}
+			if by := batch[qi]; by < mn || by > mx || (by > 0 && !hasPos) || (by < 0 && !hasNeg) {
+				t.Fatalf("C11 huge %s (W=%v): quantile %v: the batch query answers %v, outside [%v,%v] or from an empty side", c, W, q, by, mn, mx)
 			}
 			if y < mn || y > mx {
 				t.Fatalf("C11 huge %s (W=%v): quantile %v answered %v, outside the reported [min,max] = [%v,%v]", c, W, q, y, mn, mx)
